@@ -43,7 +43,14 @@ OBLIGATIONS_EMIT = [
     'C03Emit.width_net_md', 'C03Emit.width_clk_md', 'C03Emit.lookup_reg_h', 'C03Emit.inst_reg_h', 'C03Emit.lookup_sub', 'C03Emit.inst_sub',
     'C03Emit.md_insts', 'C03Emit.sub_conn_drivers', 'C03Emit.ci_drivers', 'C03Emit.drivers_md', 'C03Emit.md_drv_len', 'C03Emit.md_drivers',
     'C03Emit.hemit_header', 'C03Emit.hemit_body', 'C03Emit.hemit_pdef',
+    # the level-free list IS C01's nested description: HierSrc.toHS, `S.toHS.emit = S.emit`
+    'C03Emit.hasRegN_eq', 'C03Emit.modHasRegN_eq', 'C03Emit.convN_hasClk', 'C03Emit.mdOfN_hasClk', 'C03Emit.ciItems_convN',
+    'C03Emit.mdModule_mdOfN', 'C03Emit.toModule_modsOfN', 'C03Emit.toHS_mods', 'C03Emit.toHS_emit',
+    'C03Emit.emit_wf_hierSrc', 'C03Emit.emit_check_hierSrc', 'C03Emit.real_text_wf_hierSrc',
 ]
+
+# third proof stage: C03 and C01 about ONE emitted design (imports Props/C01Hier.lean read-only)
+OBLIGATIONS_JOINT = ['C03Emit.emit_wf_and_run', 'C03Emit.real_text_wf_and_elab']
 
 DRIVER = 'Drv/C03.lean'
 
@@ -90,6 +97,14 @@ PROPOSED_FINDINGS = [
      "class_expr": "r.get('kind')=='wf' and r.get('err')=='dupDecl' and r['source_kinds']==['port','variable']",
      "witness": {"design": "self.out = addOut('cnt', q); self.cnt = 0", "emitted": "output reg [7:0] cnt … integer cnt;"},
      "what": "a transpiled state variable whose Python name equals a port name is declared a second time as `integer`"},
+    {"id": "C03-transpiler-local-clock", "property": "C03", "status": "known", "anchor": "py4hw/transpilation/python2verilog_transpilation.py:584",
+     "class_expr": "r.get('kind')=='wf' and r.get('err')=='dupDecl' and r.get('source_kinds')==['clock','local']",
+     "witness": {"design": "clock(): `clk = self.a.get()` in a block whose clock driver is named clk", "emitted": "input clk … integer clk; … clk=a;"},
+     "what": "a method-local variable of a transpiled clock() named like the implicit clock port (`clk`) is declared `integer clk;` next to `input clk` and assigned procedurally: the refusal of locals that collide with ports (selfNames) does not know the clock"},
+    {"id": "C03-transpiler-init-remap", "property": "C03", "status": "known", "anchor": "py4hw/transpilation/python2verilog_transpilation.py:603",
+     "class_expr": "r.get('kind')=='wf' and r.get('err')=='driven' and r.get('why')=='init-remapped-through-attribute'",
+     "witness": {"design": "self.din = addIn('start', ..); self.total = addIn('din', ..); self.start = addOut('total', ..)", "emitted": "initial begin din=0; end   (din is an input; total is never initialised)"},
+     "what": "the `initial` assignments of the output ports are written with PORT names and then pass through ReplaceWiresAndVariables.visit_VerilogWire, which maps ATTRIBUTE names to port names: when an output port's name is also the attribute name of another port, the initial value is assigned to that other port (an input is driven procedurally)"},
     {"id": "C03-param-no-default", "property": "C03", "status": "fixed", "commit": "73113b7", "anchor": "py4hw/rtl_generation.py:699",
      "witness": {"design": "test/interactive/tb_Parameter.py: addParameter('INIT', 1)", "emitted": "before 73113b7: module ParamTop #( parameter INIT) ("},
      "what": "fixed: property=C03 73113b7 createModuleHeader emitted `parameter NAME` without a value (IEEE 1364-2005 requires `parameter NAME = constant`); now `parameter NAME = <value>`; a bare parameter is the WF error paramNoDefault (rule R-pdef), regression: param stream"},
@@ -148,10 +163,11 @@ def emit_alone(obj):
         return g.getVerilog(obj, noInstanceNumber=False)
 
 
-def emitted_objects(g, obj, top=True):
-    """(module name, object) in emission order (rtl_generation._getVerilogForHierarchy)"""
+def emitted_objects(g, obj, top=True, top_name=None):
+    """(module name, object) in emission order (rtl_generation._getVerilogForHierarchy); top_name: the name the REQUEST gave
+    the top module (forceName / noInstanceNumber options)"""
     R = rtl()
-    out = [(R.getVerilogModuleName(obj, noInstanceNumber=top), obj)]
+    out = [(top_name if (top and top_name is not None) else R.getVerilogModuleName(obj, noInstanceNumber=top), obj)]
     for c in obj.children.values():
         if not g.isInlinable(c):
             out += emitted_objects(g, c, False)
@@ -166,7 +182,7 @@ def is_transpiled(g, obj):
 
 def has_ifexp(obj):
     try:
-        src = textwrap.dedent(inspect.getsource(type(obj)))
+        src = getattr(type(obj), '_c03_source', None) or textwrap.dedent(inspect.getsource(type(obj)))
         return any(isinstance(n, ast.IfExp) for n in ast.walk(ast.parse(src)))
     except Exception:
         return False
@@ -176,7 +192,7 @@ def names_in_methods(obj):
     """(names used as self.<n>, plain names) in propagate / clock of the object's class"""
     attrs, plain = set(), set()
     try:
-        tree = ast.parse(textwrap.dedent(inspect.getsource(type(obj))))
+        tree = ast.parse(getattr(type(obj), '_c03_source', None) or textwrap.dedent(inspect.getsource(type(obj))))
     except Exception:
         return attrs, plain
     for fn in ast.walk(tree):
@@ -226,6 +242,8 @@ def sources_of(g, obj, n):
             src.append(['param', pn])
     if is_transpiled(g, obj) and n in vars(obj) and isinstance(vars(obj)[n], (int, bool)) and not isinstance(vars(obj)[n], Wire):
         src.append(['variable', n])
+    if is_transpiled(g, obj) and n in names_in_methods(obj)[1]:
+        src.append(['local', n])           # a method-local variable of propagate / clock (no listed finding is about these)
     return src, len(set(id(w) for w in wires)) == len(wires) and len(wires) >= 2
 
 
@@ -245,7 +263,28 @@ def verbatim_keywords(g, objs, kws):
             for k, v in vars(o).items():
                 if k in kws and isinstance(v, (int, bool)):
                     out.append(['variable', k])
+            for k in sorted(names_in_methods(o)[1]):
+                if k in kws:
+                    out.append(['variable', k])      # a method-local Python variable: copied verbatim like the state variables
     return out
+
+
+def init_remapped(g, obj, n, text):
+    """the input port n of the transpiled block obj is assigned in the module's `initial` block because the initial value of
+    an OUTPUT port (written with its port name) went through the attribute->port map a second time: some output port's name
+    is also the name of the ATTRIBUTE that holds input port n"""
+    R = rtl()
+    if obj is None or not is_transpiled(g, obj):
+        return False
+    if not re.search(r'initial\s+begin(?:(?!\bend\b).)*?\b%s\s*=\s*0\s*;' % re.escape(n), text, flags=re.S):
+        return False
+    for o in obj.outPorts:
+        v = vars(obj).get(R.getValidVerilogName(o.name))
+        if v is None or v is o.wire:
+            continue
+        if any(p.wire is v and R.getPortName(p) == n for p in obj.inPorts):
+            return True
+    return False
 
 
 def source_undriven(obj, n):
@@ -258,6 +297,10 @@ def source_undriven(obj, n):
         ws = [w for w in R.collectLocalWires(obj) if isinstance(w, Wire) and 'w_' + w.name == n]
     except Exception:
         return False
+    if not ws and not obj.isPrimitive():
+        # an output port of a block WITHOUT behaviour (interface-only leaf, structural block that leaves the port open):
+        # the source design itself has no driver for it inside the block
+        ws = [p.wire for p in obj.outPorts if R.getPortName(p) == n and isinstance(p.wire, Wire)]
     if not ws:
         return False
     for w in ws:
@@ -336,7 +379,9 @@ def _sxs(t):
 
 
 def export_hs(hsrc_text):
-    """C01's nested description `(hsrc depth clk (widths …) <mod> (order …))` -> the level-free list of lean/Py4hwV/Verilog/EmitMD.lean:
+    """(no longer used by the check: the conversion is `FlatM.HierSrc.toHS` in lean/Py4hwV/Verilog/EmitMDOf.lean; kept as its
+    Python transcription for the driver's `hs`-after-`hsrc` comparison in hand tests)
+    C01's nested description `(hsrc depth clk (widths …) <mod> (order …))` -> the level-free list of lean/Py4hwV/Verilog/EmitMD.lean:
     `(hs clk (widths …) (mods …))`, modules in emission order (a module, then for each child its register module / its sub-module
     followed by that module's own children)"""
     t = _sx(hsrc_text)
@@ -368,8 +413,9 @@ class EmitCov:
     """for which designs of the streams is well-formedness of the real text PROVED (not only checked)?
        flat:  C01's exporter imports `FlatM.FlatSrc` S from the live circuit; lean/Drv/C03Emit.lean decides parsed text = S.emit,
               S.check and C03Emit.namesOKb S  => `C03Emit.real_text_wf` applies to this text;
-       hier:  (figure only) C01's hierarchical exporter + lean/Drv/C01Hier.lean decide text = HierSrc.emit and HierSrc.check: the
-              real text is the model emitter's output, the well-formedness theorem for that model is not proved yet."""
+       hier:  C01's hierarchical exporter imports the NESTED description S : FlatM.HierSrc (the object of C01's behavioural
+              theorems); lean/Drv/C03Emit.lean decides parsed text = S.toHS.emit (= S.emit by `C03Emit.toHS_emit`) and S.toHS.okb
+              => `C03Emit.real_text_wf_hierSrc` applies to this text."""
 
     def __init__(self, res):
         self.res = res
@@ -404,7 +450,8 @@ class EmitCov:
         try:
             with contextlib.redirect_stdout(io.StringIO()):
                 hs = c01.HierExporter(d, tree).export()
-            self.hs += ['design ' + vparse.sexp(tree), 'hs ' + export_hs(hs), 'hcheck']
+            # C01's NESTED description as it is: lean/Drv/C03Emit.lean converts it with `HierSrc.toHS` (proved: C03Emit.toHS_emit)
+            self.hs += ['design ' + vparse.sexp(tree), 'hsrc ' + hs, 'hcheck']
             self.hsmeta.append((ctx, stream))
         except c01.NotCovered as e:
             res.hist('emit_model_hier', 'not-covered: ' + re.sub(r'kind \w+', 'child kind outside HierSrc', str(e).split(' / ')[0])[:60])
@@ -438,7 +485,7 @@ class EmitCov:
                     if not ctx.get('proved'):
                         self.proved_any += 1
                     ctx['proved'] = True
-                    res.hist('emit_wf_hier', 'PROVED: text == HSrc.emit and HSrc.okb')
+                    res.hist('emit_wf_hier', 'PROVED: text == HierSrc.emit (= toHS.emit) and toHS.okb')
                     res.hist('emit_wf_hier_by_stream', stream)
                 else:
                     res.hist('emit_wf_hier', 'not-covered: ' + re.sub(r'_[0-9a-f]{9,}', '_<id>', o)[:70])
@@ -481,7 +528,7 @@ class Pipeline:
             res.hist('emitter_refusals', f"{job['kind'].split(':')[0]}:{type(e).__name__}")
             res.count(('refused', job['kind'], json.dumps(job['desc'], default=str, sort_keys=True)), hist={'stream': job['kind'].split(':')[0]})
             return None
-        objs = emitted_objects(g, job['dut'])
+        objs = emitted_objects(g, job['dut'], top_name=job.get('top_name'))
         cobjs = job.get('canon_objs') or [o for _, o in objs]
         ctext = P.strip_attributes(P.canon_ids(text, cobjs))
         cnames = [(P.canon_ids(n, cobjs), o) for n, o in objs]
@@ -627,6 +674,8 @@ class Pipeline:
                 r['sources'], r['distinct_wires'] = sources_of(g, obj, f[1])
             elif kind in ('dupDecl', 'reserved'):
                 r['sources'] = []
+            if kind == 'driven' and init_remapped(g, obj, f[1], ctx['text']):
+                r['why'] = 'init-remapped-through-attribute'
             if kind == 'undeclared' and obj is not None and is_transpiled(g, obj):
                 from py4hw.base import Wire
                 n = f[1]
@@ -698,7 +747,7 @@ class Pipeline:
             if r['err'] == 'driverCount' and r['fields'][2] == '0' and source_undriven(first.get(r['module']), r['name']):
                 # precondition of the property: the SOURCE design leaves this local wire without any driver (py4hw's own
                 # integrity check rejects it); the emitter faithfully declares an undriven net — not attributed to the emitter
-                res.hist('excused', 'local wire undriven in the source design')
+                res.hist('excused', 'local wire undriven in the source design' if str(r['name']).startswith('w_') else 'output port of a block without behaviour, undriven in the source design')
                 continue
             fail(res, f"emitted design is not well formed: {r['err']} {' '.join(r['fields'])}", dict(r, text=ctx['text'][:1200]))
 
@@ -1092,6 +1141,116 @@ def stream_params(pipe, res, rng, tier):
         pipe.maybe_flush()
 
 
+def stream_bbox(pipe, res, rng, tier):
+    """structural modules whose children are (partly) blocks without behaviour — interface-only leaves (vendor IP style), empty
+    shells, structural blocks that hand their ports straight to such a leaf or leave a port open — next to primitives, inlined
+    and named: local nets whose every endpoint is a non-primitive port, nets with one primitive endpoint, dangling and undriven
+    ones, at several widths"""
+    import itertools
+    q = tier == 'quick'
+    kinds = CD.BBOX_KINDS
+    chains = [list(c) for c in itertools.product(kinds, repeat=2)]
+    r = rng.fork('bbox')
+    tri = [list(c) for c in itertools.product(kinds, repeat=3)]
+    chains += r.shuffle(tri)[:(20 if q else 150)]
+    if not q:
+        chains += [[r.choice(kinds) for _ in range(r.randint(4, 6))] for _ in range(100)]
+    for ci, st in enumerate(chains):
+        rr = r.fork(ci)
+        variants = [dict(head='port', tail='port', side=True)]
+        if not q or ci % 3 == 0:
+            variants += [dict(head='none', tail='port', side=True), dict(head='port', tail='dangling', side=ci % 2 == 0)]
+        if not q:
+            variants += [dict(head='none', tail='dangling', side=False), dict(head='port', tail='port', side=False)]
+        for v in variants:
+            w, vw = rr.choice([1, 2, 16, 33]), rr.choice([1, 1, 4])
+            tryadd(pipe, res, lambda: CD.bbox_design(st, w=w, vw=vw, **v))
+        pipe.maybe_flush()
+
+
+def stream_clkport(pipe, res, rng, tier):
+    """second clock domain whose clock WIRE is a port / a local net of the top and reaches the block of that domain through
+    0 .. 3 levels of input ports; the domain is carried by a Reg itself or by a structural block around one"""
+    q = tier == 'quick'
+    for src in ('port', 'local'):
+        for depth in ((0, 1, 2) if q else (0, 1, 2, 3)):
+            for holder in ('reg', 'block'):
+                for inh in (True, False):
+                    for cn in (['clk25'] if q else ['clk25', 'clk2', 'pixclk', 'ck']):
+                        for w in ([8] if q else [1, 8]):
+                            tryadd(pipe, res, lambda: CD.clkport_design(src=src, depth=depth, holder=holder, clkname=cn, w=w, inherited=inh))
+    pipe.maybe_flush()
+
+
+def stream_options(pipe, res, rng, tier):
+    """every public option of the generator's entry points on hierarchies with non-inlined children:
+       getVerilogForHierarchy(obj, noInstanceNumberInTopEntity, forceName, createdStructures) and getVerilog(obj, noInstanceNumber,
+       forceName).  The returned text must be a closed design under the name the request asked for."""
+    import py4hw
+    R = rtl()
+    q = tier == 'quick'
+    fnames = [None, 'forced_top', 'Top_v2'] if q else [None, 'forced_top', 'Top_v2', 'T', 'my_design_1', 'top']
+    for i in range(2 if q else 12):
+        r = rng.fork(i)
+        makers = [lambda: CD.seq_design(r, r.choice([2, 8])), lambda: CD.hier_design(r, depth=r.randint(1, 2), fan=r.randint(2, 3)),
+                  lambda: CD.bbox_design([r.choice(CD.BBOX_KINDS) for _ in range(3)], w=r.choice([1, 16]))]
+        for mi, mk in enumerate(makers):
+            for fn in fnames:
+                for nonum in (True, False):
+                    for cs in (None, 'fresh'):
+                        for entry in ('H', 'V'):
+                            if entry == 'V' and cs is not None:
+                                continue
+                            if q and fn is None and nonum and cs is None and entry == 'H':
+                                continue          # the default request: every other stream
+                            try:
+                                d = mk()
+                            except Exception as e:
+                                res.hist('constructor_refusals', f'options:{type(e).__name__}')
+                                continue
+                            top = d['top']
+                            subs = [c for c in top.children.values() if len(c.children) > 0]
+                            o = top if (i + mi) % 2 == 0 or not subs else subs[0]
+                            cobjs = CD.all_objects(top)
+                            g = py4hw.VerilogGenerator(top)
+                            opts = dict(entry=entry, forceName=fn, noInstanceNumber=nonum, createdStructures=cs, dut='top' if o is top else 'child')
+                            res.hist('generator_options', f"{entry} forceName={'set' if fn else None} noInstanceNumber={nonum} createdStructures={cs}")
+                            try:
+                                with contextlib.redirect_stdout(io.StringIO()):
+                                    if entry == 'V':
+                                        text = g.getVerilog(o, noInstanceNumber=nonum, forceName=fn)
+                                    elif cs is None:
+                                        text = g.getVerilogForHierarchy(o, noInstanceNumberInTopEntity=nonum, forceName=fn)
+                                    else:
+                                        text = g.getVerilogForHierarchy(o, noInstanceNumberInTopEntity=nonum, forceName=fn, createdStructures=[])
+                                name = fn if fn is not None else R.getVerilogModuleName(o, noInstanceNumber=nonum)
+                                ext = headers_of(o, cobjs, None, exclude=(P.canon_ids(R.getVerilogModuleName(o, noInstanceNumber=False), cobjs),)) if entry == 'V' else '(design)'
+                            except Exception as e:
+                                res.hist('emitter_refusals', f'options:{type(e).__name__}')
+                                continue
+                            pipe.add(dict(kind='options', desc=dict(design=d['desc'], maker=mi, **opts), gen_root=top, dut=o, g=g, text=text, ext=ext,
+                                          canon_objs=cobjs, top_name=name, must_define=name))
+        pipe.maybe_flush()
+
+
+def stream_behavgen(pipe, res, rng, tier):
+    """generated behavioural classes: attribute names equal to / different from / permuted among the port names, method-local
+    variables named like the module's other identifiers (ports, escaped ports, attributes, state variables, the clock, keywords)"""
+    import c03_behavgen as BG
+    q = tier == 'quick'
+    for spec in BG.specs(rng, q):
+        for w in ([8] if q else [1, 8]):
+            try:
+                hw, dut, src = BG.build(spec, w)
+            except Exception as e:
+                res.hist('constructor_refusals', f'behavgen:{type(e).__name__}')
+                continue
+            res.hist('behavgen', f"{spec['method']} attrs={spec['naming']} locals={len(spec['locals'])}")
+            pipe.add(dict(kind='behavgen', desc=dict(w=w, source=src, **{k: spec[k] for k in ('method', 'naming', 'locals', 'ports', 'state', 'shape')}),
+                          gen_root=hw, dut=dut))
+    pipe.maybe_flush()
+
+
 def names_oracle(pipe, res, rng, kws, tier):
     """model of the naming functions vs the real ones + the property's oracle on the real getValidVerilogName"""
     R = rtl()
@@ -1190,9 +1349,12 @@ def main(res, tier, rng, replay):
     n1, d1, ax1 = res.cov['obligations'], res.cov['discharged'], set(res.cov.get('axioms_seen', []))
     # second proof stage: the universal theorem for the C01 emitter model (flat designs)
     res.proof_stage('Py4hwV.Props.C03Emit', OBLIGATIONS_EMIT)
-    res.cov['obligations'], res.cov['discharged'] = n1 + res.cov['obligations'], d1 + res.cov['discharged']
-    res.cov['axioms_seen'] = sorted(ax1 | set(res.cov.get('axioms_seen', [])))
-    res.cov['checker_cmd'] = 'cd lean && lake build Py4hwV.Props.C03 Py4hwV.Props.C03Emit && #print axioms on every obligation'
+    n2, d2, ax2 = n1 + res.cov['obligations'], d1 + res.cov['discharged'], ax1 | set(res.cov.get('axioms_seen', []))
+    # third proof stage: the conjunction with C01's hierarchy theorem about the same `HierSrc.emit`
+    res.proof_stage('Py4hwV.Props.C03C01', OBLIGATIONS_JOINT)
+    res.cov['obligations'], res.cov['discharged'] = n2 + res.cov['obligations'], d2 + res.cov['discharged']
+    res.cov['axioms_seen'] = sorted(ax2 | set(res.cov.get('axioms_seen', [])))
+    res.cov['checker_cmd'] = 'cd lean && lake build Py4hwV.Props.C03 Py4hwV.Props.C03Emit Py4hwV.Props.C03C01 && #print axioms on every obligation'
     kws = lean_keywords()
     pipe = Pipeline(res, kws)
     q = tier == 'quick'
@@ -1204,6 +1366,10 @@ def main(res, tier, rng, replay):
     stream_names(pipe, res, rng.fork('names'), kws, tier)
     stream_behav(pipe, res, rng.fork('behav'), tier)
     stream_params(pipe, res, rng.fork('params'), tier)
+    stream_bbox(pipe, res, rng.fork('bbox'), tier)
+    stream_clkport(pipe, res, rng.fork('clkport'), tier)
+    stream_options(pipe, res, rng.fork('options'), tier)
+    stream_behavgen(pipe, res, rng.fork('behavgen'), tier)
     pipe.maybe_flush()
     stream_lib(pipe, res, rng.fork('lib'), 6 if q else 160)
     stream_multi(pipe, res, rng.fork('multi'), 4 if q else 120)
@@ -1217,7 +1383,8 @@ def main(res, tier, rng, replay):
                        'canonical text (instance-unique module suffixes renumbered). Streams: every library block at sampled widths/options, random '
                        'primitive netlists, keyword and prefix-collision names in every user-controlled position (port in/out, local wire, instance, '
                        'clock driver, class), reused blocks with different optional ports/widths/clock domains, nested hierarchies of shared modules, '
-                       'behavioural classes of the repo and of harness/c03_behav.py through the transpiler, naming functions vs their Lean model')
+                       'behavioural classes of the repo and of harness/c03_behav.py through the transpiler, GENERATED behavioural classes (attribute / port / local-variable '
+                       'name clashes), modules of interface-only blocks, clock wires through ports, every option of the generator entry points, naming functions vs their Lean model')
     res.assumptions += [
         'harness/vparse.py accepts exactly the emitted subset; it is validated per text by the significant-token round trip (c03_vpp.roundtrip); '
         'documented gaps: attribute instances (* … *) are stripped, parameter declarations without default value are accepted (not IEEE 1364-2005, SystemVerilog only)',
